@@ -417,8 +417,9 @@ def init_bins(edges, value=0, deepcopy=False):
     [0, 0]
     """
     nbins = len(edges) - 1
-    if not isinstance(edges[0], (list, tuple)):
+    if not hasattr(edges[0], '__iter__'):
         # edges is one-dimensional
+        # (same test as in check_edges_increasing and histogram)
         if deepcopy:
             return [copy.deepcopy(value) for _ in range(nbins)]
         else:
